@@ -7,6 +7,21 @@ import (
 	"pgregory.net/rapid"
 )
 
+// F is a (nearly) uniform float generator on [lo,hi]. rapid.Float64Range is
+// strongly biased towards small magnitudes when the range spans several
+// binades (measured: 71% of Float64Range(0,1) below 0.1); inside the single
+// binade [1,2) it is uniform apart from extra mass on the end points, which
+// is mapped affinely onto [lo,hi] here. Shrinks towards lo.
+func F(lo, hi float64) *rapid.Generator[float64] {
+	return rapid.Map(rapid.Float64Range(1, math.Nextafter(2, 1)), func(x float64) float64 {
+		v := lo + (x-1)*(hi-lo)
+		if v > hi {
+			v = hi
+		}
+		return v
+	})
+}
+
 var cad = []float64{0.25, 0.5, 1, 1.5, 2, 2.5, 3, 4, 5, 8, 10, 12.5, 16, 20, 25.4, 50, 100}
 
 // Length draws a positive length: CAD-ish round numbers or log-uniform in [lo,hi].
@@ -27,7 +42,7 @@ func Length(t *rapid.T, label string, lo, hi float64) float64 {
 
 // LogUniform draws log-uniformly from [lo,hi] (both > 0).
 func LogUniform(t *rapid.T, label string, lo, hi float64) float64 {
-	u := rapid.Float64Range(math.Log(lo), math.Log(hi)).Draw(t, label)
+	u := F(math.Log(lo), math.Log(hi)).Draw(t, label)
 	x := math.Exp(u)
 	if x < lo {
 		x = lo
@@ -46,7 +61,7 @@ func Coord(t *rapid.T, label string, r float64) float64 {
 		n := rapid.IntRange(-8, 8).Draw(t, label+".g")
 		return float64(n) * r / 8
 	default:
-		x := rapid.Float64Range(-r, r).Draw(t, label)
+		x := F(-r, r).Draw(t, label)
 		// magnitudes below 1e-9 of the scale are outside the CAD domain (they only
 		// appear when rapid shrinks towards zero): snap them to exactly zero
 		if math.Abs(x) < 1e-9*r {
@@ -61,7 +76,7 @@ func Angle(t *rapid.T, label string) float64 {
 	if rapid.IntRange(0, 3).Draw(t, label+".k") == 0 {
 		return float64(rapid.IntRange(-4, 4).Draw(t, label+".q")) * math.Pi / 4
 	}
-	return rapid.Float64Range(-math.Pi, math.Pi).Draw(t, label)
+	return F(-math.Pi, math.Pi).Draw(t, label)
 }
 
 // Ulp returns x moved by n units in the last place.
